@@ -112,7 +112,7 @@ Proof.
   set (fl0 := init_flags m []) in H.
   assert (C0 : covers m fl0) by apply init_flags_covers.
   destruct (mandatory opt || negb (is_plain_none src)).
-  - destruct (process_plus src).
+  - destruct (process_plus (map (fun w => unstar (wv w)) m) src).
     + destruct (plus_loop src fl0) as [fl|v l] eqn:E; [|discriminate].
       destruct (rebuild m fl) eqn:R; try discriminate. eapply rebuild_no_crash; [|exact R].
       intros w Hw. eapply plus_loop_keep; [exact E|apply C0; exact Hw].
